@@ -174,6 +174,9 @@ def answers_for(kind, size):
             terms = tuple(sorted({x for _, rhs in g[3] for x in rhs if x not in g[1]}))
             g2 = ('cfg', tuple(sorted(lhs)), terms, g[3], g[4])
             yield c13.grammar_text(g2), (lambda L, g2=g2: cfg.language(g2, L)[0]), None, ('cfg', g2)
+            if len({l for l, _ in g2[3]}) >= 2 and len(g2[3]) > len({l for l, _ in g2[3]}):
+                # wave 6: the same grammar written one alternative per line, lines of different variables interleaved
+                yield c13.grammar_text_lines(g2), (lambda L, g2=g2: cfg.language(g2, L)[0]), None, ('cfg', g2, 'lines')
     elif kind == 'pda':
         for idx, s in pda.pdas(1, 1, 1, 3):
             P = pda.ref(s)
